@@ -39,6 +39,9 @@ pub enum IdOp {
     OwnedMaybeToRef(String, String, String, String),
     /// ... .to_create(&mut xot) and xmlname::CreateName / CreateNamespace constructors
     CreateViaXmlname(String, String, String),
+    /// CreateName::parse_full_name / OwnedName::parse_full_name of "prefix:local" with a lookup that
+    /// maps exactly that prefix to the namespace
+    ParseFullName(String, String, String),
     Html5,
     /// clone the store and continue on the clone
     ForkContinueOnClone,
@@ -509,6 +512,35 @@ fn apply(w: &mut IdWorld, op: &IdOp, stats: &mut Stats, rng_salt: u64) -> Result
             w.rec_nm(l, "", d)?;
             stats.inc("op/xmlname_create/ok");
         }
+        IdOp::ParseFullName(p, l, u) => {
+            use xot::xmlname::{CreateName, NameStrInfo, OwnedName};
+            // (a local name or prefix with a colon in it would be split elsewhere: not what is under test)
+            if p.contains(':') || l.contains(':') {
+                return Ok(());
+            }
+            let full = if p.is_empty() { l.clone() } else { format!("{}:{}", p, l) };
+            let r = real_call(|| {
+                let nsid = w.x.add_namespace(u);
+                let c = CreateName::parse_full_name(&mut w.x, &full, |q| if q == p { Some(nsid) } else { None }).map(|c| c.name_id());
+                let o = OwnedName::parse_full_name(&full, |q| if q == p { Some(u.clone()) } else { None })
+                    .map(|o| (o.local_name().to_string(), o.namespace().to_string(), o.prefix().to_string()));
+                (nsid, c, o)
+            });
+            let (nsid, c, o) = match r {
+                Ok(t) => t,
+                Err(_) => return Err(v("lookup-wrong", format!("parse_full_name({:?}) unwinds", full))),
+            };
+            w.rec_ns(u, nsid)?;
+            match c {
+                Ok(id) => w.rec_nm(l, u, id)?,
+                Err(e) => return Err(v("lookup-wrong", format!("CreateName::parse_full_name({:?}) with a resolving lookup failed: {:?}", full, e))),
+            }
+            match o {
+                Ok(t) if t == (l.clone(), u.clone(), p.clone()) => {}
+                other => return Err(v("lookup-wrong", format!("OwnedName::parse_full_name({:?}) gives {:?}, expected ({:?},{:?},{:?})", full, other.map_err(|e| format!("{:?}", e)), l, u, p))),
+            }
+            stats.inc("op/xmlname_parse_full_name/ok");
+        }
         IdOp::Parse(text, fragment) => {
             let r = real_call(|| if *fragment { w.x.parse_fragment(text) } else { w.x.parse(text) });
             match r {
@@ -688,8 +720,10 @@ fn gen_ops(rng: &mut Rng, run_index: u64) -> Vec<IdOp> {
     let n = rng.range(8, 60);
     let long = "x".repeat(300);
     let pool = |rng: &mut Rng| -> String {
-        match rng.below(12) {
+        match rng.below(13) {
             0 => String::new(),
+            // one-character strings whose code points agree in their low byte / low 16 bits
+            10 => rng.pick_str(&["a", "\u{161}", "\u{461}", "A", "\u{441}", "-", "\u{4e2d}", "\u{10061}", "\u{e9}", "\u{1e9}"]).to_string(),
             // strings that differ from a built-in only in case or by a character
             11 => rng.pick_str(&["XML", "Xml", "xmL", "xmlns", "XMLNS", "ID", "Id", "SPACE", "Space", "xml ", "xml:", "id", "space"]).to_string(),
             1 => long.clone(),
@@ -717,7 +751,8 @@ fn gen_ops(rng: &mut Rng, run_index: u64) -> Vec<IdOp> {
     // one run shape registers more than 65 536 entries per table
     let bulk_run = run_index % 400 == 7;
     for i in 0..n {
-        let op = match rng.below(23) {
+        let op = match rng.below(24) {
+            23 => IdOp::ParseFullName(if rng.pct(25) { String::new() } else { pool(rng) }, pool(rng), upool(rng)),
             20 => IdOp::OwnedToRef(pool(rng), upool(rng), pool(rng)),
             21 => IdOp::OwnedMaybeToRef(pool(rng), upool(rng), if rng.pct(50) { String::new() } else { pool(rng) }, pool(rng)),
             22 => IdOp::CreateViaXmlname(pool(rng), upool(rng), pool(rng)),
@@ -748,6 +783,15 @@ fn gen_ops(rng: &mut Rng, run_index: u64) -> Vec<IdOp> {
                                 t.insert_str(at, &format!(" {}:xmlns=\"urn:v\"", p));
                                 break;
                             }
+                        }
+                    }
+                }
+                if rng.pct(6) {
+                    // the library lets a document bind the xml prefix to something else: names written
+                    // with it then belong to that namespace
+                    if let Some(i) = t.find(|c: char| c == '>' || c == '/') {
+                        if t.starts_with('<') && !t.starts_with("<?") && !t.starts_with("<!") && !t[..i].contains("xml:") {
+                            t.insert_str(i, " xmlns:xml=\"urn:not-xml\" xml:zz=\"1\" xml:id=\" v \"");
                         }
                     }
                 }
